@@ -4,6 +4,8 @@
 package drv
 
 import (
+	"io"
+	"errors"
 	"fmt"
 	"net/http"
 	"os"
@@ -57,6 +59,7 @@ type Config struct {
 	BoltSync         bool                    // keep bbolt's fsyncs (crashmc); default NoSync for speed
 	FsWrap           func(afero.Fs) afero.Fs // wraps the base fs handed to the backend (schedmc / crashmc)
 	MetaFsWrap       func(afero.Fs) afero.Fs // wraps the metadata fs of single-bucket worlds
+	PutFault         bool                    // wrap the backend so that PutObject can be made to fail (World.FailPuts)
 	ReuseDir         string                  // open existing storage at this directory (crash images, reopen)
 	KeepDir          bool                    // do not remove the storage directory on Close
 	MemFs            afero.Fs                // reuse an existing MemMapFs (reopen on -mem worlds)
@@ -82,6 +85,27 @@ type World struct {
 	BaseFs   afero.Fs // unwrapped base fs (raw dumps)
 	MetaFs   afero.Fs
 	Requests int64
+
+	// FailPuts > 0 (only with Cfg.PutFault): the next FailPuts PutObject calls
+	// fail with a storage error before anything is stored.
+	FailPuts int
+}
+
+// faultBackend lets the harness decide the environment's answer to a store
+// request: the wrapped backend's PutObject fails while World.FailPuts > 0.
+// (Only the plain Backend interface is passed through, so a world with
+// PutFault has no versioning.)
+type faultBackend struct {
+	gofakes3.Backend
+	w *World
+}
+
+func (f *faultBackend) PutObject(bucket, key string, meta map[string]string, input io.Reader, size int64) (gofakes3.PutObjectResult, error) {
+	if f.w.FailPuts > 0 {
+		f.w.FailPuts--
+		return gofakes3.PutObjectResult{}, errors.New("injected storage fault: no space left on device")
+	}
+	return f.Backend.PutObject(bucket, key, meta, input, size)
 }
 
 var scratchRoot string
@@ -221,7 +245,11 @@ func (w *World) buildFaker() {
 	if cfg.MetaLimit != 0 {
 		opts = append(opts, gofakes3.WithMetadataSizeLimit(cfg.MetaLimit))
 	}
-	w.Faker = gofakes3.New(w.Backend, opts...)
+	be := w.Backend
+	if cfg.PutFault {
+		be = &faultBackend{Backend: be, w: w}
+	}
+	w.Faker = gofakes3.New(be, opts...)
 	w.H = w.Faker.Server()
 }
 
